@@ -158,7 +158,8 @@ func oprfCase(t *rapid.T, si suiteInfo, mode byte) {
 	var sk *oprf.PrivateKey
 	var err error
 	keyDesc := ""
-	if rapid.Bool().Draw(t, "derive") {
+	switch rapid.SampledFrom([]string{"derive", "derive", "random", "random", "edge"}).Draw(t, "keyKind") {
+	case "derive":
 		seed := vlib.EdgeBytes(t, 32, "seed")
 		kinfo := vlib.Bytes(t, 0, 20, "keyInfo")
 		sk, err = oprf.DeriveKey(si.suite, mode, seed, kinfo)
@@ -173,7 +174,7 @@ func oprfCase(t *rapid.T, si suiteInfo, mode byte) {
 		}
 		keyDesc = fmt.Sprintf("DeriveKey(seed=%x,info=%x)", seed, kinfo)
 		vlib.Class(sub, "key=derived")
-	} else {
+	case "random":
 		rd := vlib.DrawReader(t, "keyrnd")
 		sk, err = oprf.GenerateKey(si.suite, rd)
 		if err != nil {
@@ -181,6 +182,15 @@ func oprfCase(t *rapid.T, si suiteInfo, mode byte) {
 		}
 		vlib.Class(sub, "key=random")
 		keyDesc = "GenerateKey"
+	default:
+		// a key received in its wire format, with edge values (1, 2, order-1, 2^k, …)
+		_, kv := si.drawScalar(t, true, "edgeKey")
+		sk = new(oprf.PrivateKey)
+		if err := sk.UnmarshalBinary(si.suite, si.bigToBytes(kv)); err != nil {
+			t.Fatalf("PrivateKey.UnmarshalBinary of a canonical scalar: %v", err)
+		}
+		vlib.Class(sub, "key=unmarshalled-edge")
+		keyDesc = "UnmarshalBinary"
 	}
 	skb, _ := sk.MarshalBinary()
 	if si.bytesToBig(skb).Sign() == 0 {
@@ -809,7 +819,7 @@ func TestC16OPRF(t *testing.T) {
 		for mode := byte(0); mode < 3; mode++ {
 			si, mode := si, mode
 			t.Run(si.name+"/"+modeNames[mode], func(t *testing.T) {
-				n := si.cases([4]int{100, 100, 30, 14}, 5)
+				n := si.cases([4]int{80, 80, 24, 11}, 6)
 				if mode == 0 {
 					n = n * 2 / 3
 				}
